@@ -66,6 +66,11 @@ End ALLOC.
 Example C10_alloc_not_proportional : rsv (a_varbytes 4000000) [xfe; x00; x09; x3d; x00] = 4000000 /\ dec (ac (a_varbytes 4000000)) [xfe; x00; x09; x3d; x00] = None.
 Proof. split; reflexivity. Qed.
 
+(* PSET: inputs and outputs are reserved at once behind the 10 000 caps — 10 000 * size_of::<Input>() (13.8 MB on the reference build)
+   from a 30-byte PSET; bounded by a constant, not by the input *)
+Theorem C10_alloc_bound_pset_counts : forall sz count, snd (pset_reserve sz count) <= 10000 * sz /\ is_panic (fst (pset_reserve sz count)) = false.
+Proof. exact pset_reserve_bound. Qed.
+
 (* ================================================================================================ totality *)
 Theorem C10_total_key : forall maxvec bs w, fst (key_dec maxvec bs) <> Panic w.
 Proof. intros maxvec bs w H. pose proof (proj1 (key_dec_total maxvec bs)) as T. rewrite H in T. discriminate. Qed.
